@@ -67,9 +67,9 @@ def change_cluster(ctx):
     res = I.truth_expr(v)
     applied, noop = old.get('raftLastApplied'), old.get('noopIDx')
     log = old.get('raftLog')
-    ctx.prove(Implies(res, applied >= noop.val), 'C10:O10.1.accepted-only-after-own-noop-applied')
+    ctx.prove(Implies(res, applied >= noop.val), 'C10+C04+C01:O10.1.accepted-only-after-own-noop-applied')
     w = FreshInt('w')
-    ctx.prove(Implies(And(res, w > applied, w <= log.last_idx()), _ctype(log.cmd_at(w)) != 2), 'C10:O10.1.accepted-only-without-pending-change')
+    ctx.prove(Implies(And(res, w > applied, w <= log.last_idx()), _ctype(log.cmd_at(w)) != 2), 'C10+C04+C01:O10.1.accepted-only-without-pending-change')
     if ctx.decide(Not(res), 'refused'):
         for n, b in field_unchanged(old, so, ['otherNodes', 'raftNextIndex', 'raftMatchIndex', 'raftLog']):
             ctx.prove(b, 'C10:O10.1.refusal-changes-nothing.%s' % n)
@@ -197,7 +197,7 @@ def check_commands_membership(ctx, shape):
     ctx.prove(kind == 'ok', 'C10:I9.no-exception', info=getattr(v, 'typ', None))
     if kind != 'ok':
         return
-    ctx.prove(I9_goal(so), 'C10:I9.preserved-by-leader-append')
+    ctx.prove(I9_goal(so), 'C10+C04+C01:I9.preserved-by-leader-append')
 
 
 def _mut_never_record(fn):
